@@ -5,6 +5,7 @@
 //  O3 executing the word fetches exactly 1 + expanded program words at pc, and (for forms that do not transfer
 //     control) leaves pc = A + 1 + expanded; a following instruction is fetched from there, never from A+1
 //  O5 the disassembler's answer for (word, second word) does not depend on what it was asked before
+//  O6 a two-word opcode executed twice at one address with different second words uses, the second time, the word that is there now
 //  O4 flipping a bit the table text declares Unused<> changes neither the printed text nor the execution, and the
 //     set of bits that influence neither entry nor operands (recorder) is exactly the declared set
 #include <set>
@@ -256,6 +257,27 @@ vf::Result sub_O5(uint16_t w, uint16_t x) {
     return vf::Result::pass();
 }
 
+// O6: the second word an instruction consumes is the one in program memory *now*: the same two-word opcode executed at the same
+// address twice with different second words behaves, the second time, exactly as on a core that never ran the first
+icase::Machine& sut_b() {
+    static icase::Machine* m = new icase::Machine(ICASE_FNS(sut_));
+    return *m;
+}
+vf::Result sub_O6(uint16_t w, uint16_t x, uint32_t pc, uint64_t seed) {
+    const optable::Info& i = optable::info(w);
+    if (i.entry < 0 || !i.expanded)
+        return vf::Result::pass();
+    icase::ICase c = benign(w, (uint16_t)(x ^ 0x6C93), pc, seed, true);
+    (void)sut().exec(c); // first visit, other second word
+    c.expansion = x;
+    icase::IResult r1 = sut().exec(c), r2 = sut_b().exec(c);
+    if (r1.outcome != r2.outcome || (r1.outcome == 0 && (!(r1.after == r2.after) || r1.writes != r2.writes)))
+        return vf::Result::fail("C02:O6:stale-second-word:" + i.name, "word " + vf::hex(w) + " (" + i.form + ") at " + vf::hex(pc) + " with second word " + vf::hex(x) +
+                                                                          " behaves differently right after the same opcode ran there with second word " +
+                                                                          vf::hex((uint16_t)(x ^ 0x6C93)) + ": " + flat::diff(r1.after, r2.after));
+    return vf::Result::pass();
+}
+
 vf::Result run_body(const std::string& body) {
     auto t = vf::split_ws(vf::lines(body).empty() ? "" : vf::lines(body)[0]);
     if (t.size() < 6)
@@ -274,6 +296,8 @@ vf::Result run_body(const std::string& body) {
         return sub_O4_decl(w);
     if (t[0] == "O5")
         return sub_O5(w, x);
+    if (t[0] == "O6")
+        return sub_O6(w, x, pc, seed);
     return vf::Result::pass();
 }
 
@@ -321,6 +345,10 @@ int main(int argc, char** argv) {
             c.current = [&] { return body_of("O3", w, x, pc, seed, 0); };
             vf::enum_result(prop, sub_O3(w, x, pc, seed), [&] { return body_of("O3", w, x, pc, seed, 0); }, [&] { return sub_O3(w, x, pc, seed); });
             vf::enum_result(prop, sub_O5(w, x), [&] { return body_of("O5", w, x, 0, 0, 0); }, [&] { return sub_O5(w, x); });
+            if (k == 1 && info.expanded) {
+                uint32_t pc6 = 0x0400 + (wi & 0x3FFF); // one address per first word on the second core: it has never seen (w, pc6) before
+                vf::enum_result(prop, sub_O6(w, x, pc6, seed), [&] { return body_of("O6", w, x, pc6, seed, 0); }, [&] { return sub_O6(w, x, pc6, seed); });
+            }
             ++c.evaluations;
         }
         // O4: every declared-unused bit x n_states states
